@@ -56,11 +56,19 @@ impl tonic_build::Method for MDesc {
     fn comment(&self) -> &[String] {
         &[]
     }
-    fn request_response_name(&self, _proto_path: &str, _wkt: bool) -> (TokenStream, TokenStream) {
-        (
-            syn::parse_str::<syn::Path>(&self.input).unwrap().to_token_stream(),
-            syn::parse_str::<syn::Path>(&self.output).unwrap().to_token_stream(),
-        )
+    /// `F:<path>`: the path as given.  `E:<base>`: an implementation that uses both arguments
+    /// (what they are there for): `<proto_path>::<base>`, with `Wkt` appended when asked to compile
+    /// the well-known types — so the emitted types tell which arguments each generator passed.
+    fn request_response_name(&self, proto_path: &str, wkt: bool) -> (TokenStream, TokenStream) {
+        let conv = |t: &str| -> TokenStream {
+            let p = match t.split_at(2) {
+                ("F:", path) => path.to_string(),
+                ("E:", base) => format!("{proto_path}::{base}{}", if wkt { "Wkt" } else { "" }),
+                _ => panic!("type token"),
+            };
+            syn::parse_str::<syn::Path>(&p).unwrap().to_token_stream()
+        };
+        (conv(&self.input), conv(&self.output))
     }
 }
 
@@ -125,6 +133,10 @@ struct ArmInfo {
     req_stream: bool,
     resp_stream: bool,
     fns: Vec<String>,
+    /// request / response message types in the signature of the server trait method the arm
+    /// forwards to (filled in from the trait after the arms were read)
+    trait_req: String,
+    trait_resp: String,
 }
 
 struct ArmVisitor<'a>(&'a mut ArmInfo);
@@ -307,33 +319,100 @@ fn client_fn(f: &syn::ImplItemFn) -> Option<ClientInfo> {
 struct Extracted {
     service_name: Option<String>,
     named: Option<String>,
-    scrutinee: Option<String>,
-    default_code: Option<String>,
     server: Option<Vec<ArmInfo>>,
     client: Option<Vec<ClientInfo>>,
     problems: Vec<String>,
 }
 
-struct CodePathVisitor(Option<String>);
-impl<'ast> Visit<'ast> for CodePathVisitor {
-    fn visit_path(&mut self, p: &'ast syn::Path) {
-        let segs: Vec<String> = p.segments.iter().map(|s| s.ident.to_string()).collect();
-        if let Some(pos) = segs.iter().position(|s| s == "Code") {
-            if pos + 1 < segs.len() && self.0.is_none() {
-                self.0 = Some(segs[pos + 1].clone());
-            }
+/// The dispatching `match` of the generated `call`: the outermost `match` expression of the body
+/// (wherever it stands: tail expression, behind a `let`, …).  What it matches *on* is not read.
+struct MatchFinder<'ast>(Option<&'ast syn::ExprMatch>);
+impl<'ast> Visit<'ast> for MatchFinder<'ast> {
+    fn visit_expr_match(&mut self, m: &'ast syn::ExprMatch) {
+        if self.0.is_none() {
+            self.0 = Some(m);
         }
-        syn::visit::visit_path(self, p);
     }
 }
 
 fn find_match(block: &syn::Block) -> Option<&syn::ExprMatch> {
-    for st in &block.stmts {
-        if let syn::Stmt::Expr(syn::Expr::Match(m), _) = st {
-            return Some(m);
+    let mut f = MatchFinder(None);
+    f.visit_block(block);
+    f.0
+}
+
+fn last_seg(t: &syn::Type) -> Option<&syn::PathSegment> {
+    if let syn::Type::Path(tp) = t {
+        tp.path.segments.last()
+    } else {
+        None
+    }
+}
+
+fn first_type_arg(seg: &syn::PathSegment) -> Option<&syn::Type> {
+    generic_args(seg).into_iter().find_map(|a| if let syn::GenericArgument::Type(t) = a { Some(t) } else { None })
+}
+
+/// `Item = Result<Y, _>` inside the bounds of `type XStream: Stream<Item = …> + …`
+fn stream_item(bounds: &syn::punctuated::Punctuated<syn::TypeParamBound, syn::Token![+]>) -> Option<String> {
+    for b in bounds {
+        if let syn::TypeParamBound::Trait(tb) = b {
+            if let Some(seg) = tb.path.segments.last() {
+                for a in generic_args(seg) {
+                    if let syn::GenericArgument::AssocType(at) = a {
+                        if at.ident == "Item" {
+                            return last_seg(&at.ty).and_then(first_type_arg).map(strip);
+                        }
+                    }
+                }
+            }
         }
     }
     None
+}
+
+/// (fn name, request message type, response message type) of every method of the server trait
+fn trait_methods(t: &syn::ItemTrait) -> Vec<(String, String, String)> {
+    let mut out = Vec::new();
+    for it in &t.items {
+        let syn::TraitItem::Fn(f) = it else { continue };
+        let mut req = "none".to_string();
+        let mut resp = "none".to_string();
+        for arg in &f.sig.inputs {
+            if let syn::FnArg::Typed(pt) = arg {
+                // tonic::Request<Req> | tonic::Request<tonic::Streaming<Req>>
+                if let Some(inner) = last_seg(&pt.ty).filter(|s| s.ident == "Request").and_then(first_type_arg) {
+                    req = match last_seg(inner).filter(|s| s.ident == "Streaming").and_then(first_type_arg) {
+                        Some(t) => strip(t),
+                        None => strip(inner),
+                    };
+                }
+            }
+        }
+        // Result<tonic::Response<Resp | Self::XStream | BoxStream<Resp>>, tonic::Status>
+        if let syn::ReturnType::Type(_, ty) = &f.sig.output {
+            if let Some(z) = last_seg(ty).and_then(first_type_arg).and_then(last_seg).filter(|s| s.ident == "Response").and_then(first_type_arg) {
+                resp = strip(z);
+                if let syn::Type::Path(zp) = z {
+                    let segs: Vec<String> = zp.path.segments.iter().map(|s| s.ident.to_string()).collect();
+                    if segs.len() == 2 && segs[0] == "Self" {
+                        // associated stream type: its Item
+                        for it2 in &t.items {
+                            if let syn::TraitItem::Type(at) = it2 {
+                                if at.ident == segs[1].as_str() {
+                                    resp = stream_item(&at.bounds).unwrap_or_else(|| "none".into());
+                                }
+                            }
+                        }
+                    } else if segs.last().map(|s| s == "BoxStream").unwrap_or(false) {
+                        resp = zp.path.segments.last().and_then(first_type_arg).map(strip).unwrap_or_else(|| "none".into());
+                    }
+                }
+            }
+        }
+        out.push((f.sig.ident.to_string(), req, resp));
+    }
+    out
 }
 
 fn extract(file: &syn::File) -> Extracted {
@@ -347,8 +426,10 @@ fn extract(file: &syn::File) -> Extracted {
                 ex.problems.push("two-server-modules".into());
             }
             let mut arms_out = Vec::new();
+            let mut tmethods: Vec<(String, String, String)> = Vec::new();
             for it in items {
                 match it {
+                    syn::Item::Trait(t) => tmethods.extend(trait_methods(t)),
                     syn::Item::Const(c) if c.ident == "SERVICE_NAME" => {
                         ex.service_name = lit_str(&c.expr);
                     }
@@ -376,7 +457,6 @@ fn extract(file: &syn::File) -> Extracted {
                                     ex.problems.push("no-match-in-call".into());
                                     continue;
                                 };
-                                ex.scrutinee = Some(strip(&mt.expr));
                                 for arm in &mt.arms {
                                     match &arm.pat {
                                         syn::Pat::Lit(l) => {
@@ -392,11 +472,7 @@ fn extract(file: &syn::File) -> Extracted {
                                             ArmVisitor(&mut info).visit_expr(&arm.body);
                                             arms_out.push(info);
                                         }
-                                        syn::Pat::Wild(_) => {
-                                            let mut v = CodePathVisitor(None);
-                                            v.visit_expr(&arm.body);
-                                            ex.default_code = v.0;
-                                        }
+                                        syn::Pat::Wild(_) => {}
                                         other => ex.problems.push(format!("odd-arm:{}", strip(other))),
                                     }
                                 }
@@ -405,6 +481,27 @@ fn extract(file: &syn::File) -> Extracted {
                     }
                     _ => {}
                 }
+            }
+            // the trait method each arm forwards to, by name
+            for a in arms_out.iter_mut() {
+                let hit: Vec<&(String, String, String)> = tmethods.iter().filter(|t| a.fns.len() == 1 && t.0 == a.fns[0]).collect();
+                match hit.as_slice() {
+                    [t] => {
+                        a.trait_req = t.1.clone();
+                        a.trait_resp = t.2.clone();
+                    }
+                    [] => {
+                        a.trait_req = "no-such-trait-fn".into();
+                        a.trait_resp = "no-such-trait-fn".into();
+                    }
+                    _ => {
+                        a.trait_req = "multiple".into();
+                        a.trait_resp = "multiple".into();
+                    }
+                }
+            }
+            if tmethods.len() != arms_out.len() {
+                ex.problems.push(format!("trait-fns-{}-arms-{}", tmethods.len(), arms_out.len()));
             }
             ex.server = Some(arms_out);
         } else if mname.ends_with("_client") {
@@ -463,15 +560,9 @@ fn render(ex: &Extracted, fn_known: bool) -> String {
     }
     let mut out = Vec::new();
     if ex.server.is_some() {
-        out.push(format!(
-            "name {} {} on {} default {}",
-            tok(ex.service_name.as_deref().unwrap_or("none")),
-            tok(ex.named.as_deref().unwrap_or("none")),
-            tok(ex.scrutinee.as_deref().unwrap_or("none")),
-            tok(ex.default_code.as_deref().unwrap_or("none"))
-        ));
+        out.push(format!("name {} {}", tok(ex.service_name.as_deref().unwrap_or("none")), tok(ex.named.as_deref().unwrap_or("none"))));
     } else {
-        out.push("name - - on - default -".into());
+        out.push("name - -".into());
     }
     let fn_tok = |k: usize, own: &str| -> String {
         if fn_known {
@@ -496,7 +587,7 @@ fn render(ex: &Extracted, fn_known: bool) -> String {
             out.push(format!("server {}", arms.len()));
             for (k, a) in arms.iter().enumerate() {
                 out.push(format!(
-                    "{} {} {} {} {} {} {} {}",
+                    "{} {} {} {} {} {} {} {} {} {}",
                     tok(&a.literal),
                     one(&a.call),
                     one(&a.svc_trait),
@@ -504,6 +595,8 @@ fn render(ex: &Extracted, fn_known: bool) -> String {
                     fl(a.resp_stream),
                     one(&a.req),
                     one(&a.resp),
+                    tok(&a.trait_req),
+                    tok(&a.trait_resp),
                     fn_tok(k, &one(&a.fns))
                 ));
             }
@@ -577,34 +670,39 @@ fn parse_methods(t: &[&str], w: usize, n: usize) -> Option<Vec<Vec<String>>> {
 }
 
 fn run_gen(t: &[&str]) -> String {
-    // gen <emit> <arc> <stubs> <transport> <sides> <pkg> <name> <ident> <n> {fn ident cs ss in out}
-    if t.len() < 10 {
+    // gen <emit> <arc> <stubs> <transport> <sides> <wkt> <proto_path> <pkg> <name> <ident> <n> {fn ident cs ss in out}
+    if t.len() < 12 {
         return "bad-case".into();
     }
     let (emit, arc, stubs, transport) = (t[1] == "1", t[2] == "1", t[3] == "1", t[4] == "1");
     let sides = t[5];
-    let n: usize = match t[9].parse() {
+    let wkt = t[6] == "1";
+    let ppath = t[7];
+    let n: usize = match t[11].parse() {
         Ok(n) => n,
         Err(_) => return "bad-case".into(),
     };
-    let Some(ms) = parse_methods(&t[10..], 6, n) else { return "bad-case".into() };
+    let Some(ms) = parse_methods(&t[12..], 6, n) else { return "bad-case".into() };
+    if ms.iter().any(|m| !(m[4].starts_with("F:") || m[4].starts_with("E:")) || !(m[5].starts_with("F:") || m[5].starts_with("E:"))) {
+        return "bad-case".into();
+    }
     let svc = SDesc {
-        name: t[7].to_string(),
-        package: undash(t[6]),
-        ident: t[8].to_string(),
+        name: t[9].to_string(),
+        package: undash(t[8]),
+        ident: t[10].to_string(),
         methods: ms
             .iter()
             .map(|m| MDesc { name: m[0].clone(), ident: m[1].clone(), cs: m[2] == "1", ss: m[3] == "1", input: m[4].clone(), output: m[5].clone() })
             .collect(),
     };
     let mut b = tonic_build::CodeGenBuilder::new();
-    b.emit_package(emit).use_arc_self(arc).generate_default_stubs(stubs).build_transport(transport);
+    b.emit_package(emit).compile_well_known_types(wkt).use_arc_self(arc).generate_default_stubs(stubs).build_transport(transport);
     let mut ts = TokenStream::new();
     if sides != "client" {
-        ts.extend(b.generate_server(&svc, "super"));
+        ts.extend(b.generate_server(&svc, ppath));
     }
     if sides != "server" {
-        ts.extend(b.generate_client(&svc, "super"));
+        ts.extend(b.generate_client(&svc, ppath));
     }
     match syn::parse2::<syn::File>(ts) {
         Ok(f) => render(&extract(&f), true),
@@ -654,38 +752,125 @@ fn run_manual(t: &[&str]) -> String {
     }
 }
 
-fn run_prost(t: &[&str]) -> String {
-    // prost <emit> <arc> <stubs> <sides> <pkg> <service> <n> {method cs ss inMsg outMsg}
-    use prost_types::*;
-    if t.len() < 8 {
-        return "bad-case".into();
+// ---- the prost path: descriptors built from message kinds
+
+/// A message a method can take or return:
+///   L:<Msg>          message of the service's own package (`Self`, `Type`: Rust keywords)
+///   N:<Outer>.<In>   nested message of the service's own package
+///   O:<Msg>          message of another package (`other.v1`) of the same descriptor set
+///   W:<Name>         google.protobuf.<Name>
+///   X:<Msg>          message of package `ext.types` (given away by `extern_path` unless <extern> = -)
+/// → fully-qualified proto name (leading dot)
+fn kind_proto(pkg: &str, kind: &str) -> Option<String> {
+    let (k, name) = kind.split_once(':')?;
+    Some(match k {
+        "L" | "N" => {
+            if pkg.is_empty() {
+                format!(".{name}")
+            } else {
+                format!(".{pkg}.{name}")
+            }
+        }
+        "O" => format!(".other.v1.{name}"),
+        "W" => format!(".google.protobuf.{name}"),
+        "X" => format!(".ext.types.{name}"),
+        _ => return None,
+    })
+}
+
+/// Is the message compiled into the generated tree?  (Decided from the kind and the options
+/// alone — the independent half of the type clause.)
+fn kind_here(kind: &str, wkt: bool, ext: &str) -> bool {
+    match kind.split_once(':').map(|x| x.0) {
+        Some("W") => wkt,
+        Some("X") => ext == "-",
+        _ => true,
     }
-    let (emit, arc, stubs) = (t[1] == "1", t[2] == "1", t[3] == "1");
-    let sides = t[4];
-    let pkg = undash(t[5]);
-    let n: usize = match t[7].parse() {
-        Ok(n) => n,
-        Err(_) => return "bad-case".into(),
-    };
-    let Some(ms) = parse_methods(&t[8..], 5, n) else { return "bad-case".into() };
-    let fq = |m: &str| if pkg.is_empty() { format!(".{m}") } else { format!(".{pkg}.{m}") };
-    let mut msgs: Vec<String> = ms.iter().flat_map(|m| [m[3].clone(), m[4].clone()]).collect();
-    msgs.sort();
-    msgs.dedup();
-    let file = FileDescriptorProto {
+}
+
+fn ext_rust(ext: &str) -> Option<&'static str> {
+    match ext {
+        "abs" => Some("::ext_crate::types"),
+        "crate" => Some("crate::ext_types"),
+        _ => None,
+    }
+}
+
+fn msg_tree(names: &[String]) -> Vec<prost_types::DescriptorProto> {
+    // names: `A` or `A.B`
+    let mut out: Vec<prost_types::DescriptorProto> = Vec::new();
+    for n in names {
+        let (top, nested) = match n.split_once('.') {
+            Some((a, b)) => (a, Some(b)),
+            None => (n.as_str(), None),
+        };
+        let pos = match out.iter().position(|d| d.name.as_deref() == Some(top)) {
+            Some(p) => p,
+            None => {
+                out.push(prost_types::DescriptorProto { name: Some(top.to_string()), ..Default::default() });
+                out.len() - 1
+            }
+        };
+        if let Some(nn) = nested {
+            if !out[pos].nested_type.iter().any(|d| d.name.as_deref() == Some(nn)) {
+                out[pos].nested_type.push(prost_types::DescriptorProto { name: Some(nn.to_string()), ..Default::default() });
+            }
+        }
+    }
+    out
+}
+
+/// (method, cs, ss, in kind, out kind)
+type PM = (String, bool, bool, String, String);
+
+fn prost_fds(pkg: &str, service: &str, ms: &[PM]) -> prost_types::FileDescriptorSet {
+    use prost_types::*;
+    let mut by_pkg: std::collections::BTreeMap<&str, Vec<String>> = Default::default();
+    for m in ms {
+        for k in [&m.3, &m.4] {
+            let (kk, name) = k.split_once(':').unwrap();
+            let p = match kk {
+                "L" | "N" => "",
+                "O" => "other.v1",
+                "W" => "google.protobuf",
+                _ => "ext.types",
+            };
+            let v = by_pkg.entry(p).or_default();
+            if !v.contains(&name.to_string()) {
+                v.push(name.to_string());
+            }
+        }
+    }
+    let mut files = Vec::new();
+    for (p, names) in &by_pkg {
+        if p.is_empty() {
+            continue;
+        }
+        files.push(FileDescriptorProto {
+            name: Some(format!("{}.proto", p.replace('.', "/"))),
+            package: Some(p.to_string()),
+            message_type: msg_tree(names),
+            syntax: Some("proto3".into()),
+            ..Default::default()
+        });
+    }
+    let mut local = by_pkg.get("").cloned().unwrap_or_default();
+    local.sort();
+    files.push(FileDescriptorProto {
         name: Some("t.proto".into()),
-        package: if pkg.is_empty() { None } else { Some(pkg.clone()) },
-        message_type: msgs.iter().map(|m| DescriptorProto { name: Some(m.clone()), ..Default::default() }).collect(),
+        package: if pkg.is_empty() { None } else { Some(pkg.to_string()) },
+        dependency: files.iter().map(|f| f.name.clone().unwrap()).collect(),
+        message_type: msg_tree(&local),
         service: vec![ServiceDescriptorProto {
-            name: Some(t[6].to_string()),
+            name: Some(service.to_string()),
             method: ms
                 .iter()
                 .map(|m| MethodDescriptorProto {
-                    name: Some(m[0].clone()),
-                    input_type: Some(fq(&m[3])),
-                    output_type: Some(fq(&m[4])),
-                    client_streaming: Some(m[1] == "1"),
-                    server_streaming: Some(m[2] == "1"),
+                    name: Some(m.0.clone()),
+                    input_type: kind_proto(pkg, &m.3),
+                    output_type: kind_proto(pkg, &m.4),
+                    client_streaming: Some(m.1),
+                    server_streaming: Some(m.2),
                     options: None,
                 })
                 .collect(),
@@ -693,7 +878,67 @@ fn run_prost(t: &[&str]) -> String {
         }],
         syntax: Some("proto3".into()),
         ..Default::default()
+    });
+    FileDescriptorSet { file: files }
+}
+
+/// prost-build's own answer for the message types of every method under these options: a bare
+/// prost-build run (no tonic-build) with a recording service generator.
+struct Recorder(std::rc::Rc<std::cell::RefCell<Vec<[String; 4]>>>);
+impl prost_build::ServiceGenerator for Recorder {
+    fn generate(&mut self, service: prost_build::Service, buf: &mut String) {
+        // (prost-build drops a module whose buffer stayed empty and then looks it up again)
+        buf.push_str("// recorded\n");
+        for m in &service.methods {
+            self.0.borrow_mut().push([m.input_proto_type.clone(), m.input_type.clone(), m.output_proto_type.clone(), m.output_type.clone()]);
+        }
+    }
+}
+
+fn prost_view(pkg: &str, service: &str, ms: &[PM], wkt: bool, ext: &str) -> Option<Vec<[String; 4]>> {
+    let dir = tmp_dir("prostview");
+    let _g = DirGuard(dir.clone());
+    let rec = std::rc::Rc::new(std::cell::RefCell::new(Vec::new()));
+    let mut cfg = prost_build::Config::new();
+    cfg.out_dir(&dir).service_generator(Box::new(Recorder(rec.clone())));
+    if let Some(r) = ext_rust(ext) {
+        cfg.extern_path(".ext.types", r);
+    }
+    if wkt {
+        cfg.compile_well_known_types();
+    }
+    cfg.compile_fds(prost_fds(pkg, service, ms)).ok()?;
+    let v = rec.borrow().clone();
+    Some(v)
+}
+
+fn run_prost(t: &[&str]) -> String {
+    // prost <emit> <arc> <stubs> <sides> <wkt> <proto_path> <extern> <pkg> <service> <n>
+    //   {method cs ss inKind inProto inRust inHere outKind outProto outRust outHere}
+    if t.len() < 11 {
+        return "bad-case".into();
+    }
+    let (emit, arc, stubs) = (t[1] == "1", t[2] == "1", t[3] == "1");
+    let sides = t[4];
+    let wkt = t[5] == "1";
+    let ppath = t[6];
+    let ext = t[7];
+    let pkg = undash(t[8]);
+    let n: usize = match t[10].parse() {
+        Ok(n) => n,
+        Err(_) => return "bad-case".into(),
     };
+    let Some(raw) = parse_methods(&t[11..], 11, n) else { return "bad-case".into() };
+    let ms: Vec<PM> = raw.iter().map(|m| (m[0].clone(), m[1] == "1", m[2] == "1", m[3].clone(), m[7].clone())).collect();
+    // the line must state what it was made from: proto names and the compiled-here flags follow
+    // from the kinds and the options
+    for m in &raw {
+        for (k, p, h) in [(&m[3], &m[4], &m[6]), (&m[7], &m[8], &m[10])] {
+            if kind_proto(&pkg, k).as_deref() != Some(p.as_str()) || fl(kind_here(k, wkt, ext)) != h.as_str() {
+                return "bad-case".into();
+            }
+        }
+    }
     let dir = tmp_dir("prost");
     let _g = DirGuard(dir.clone());
     let mut b = tonic_build::configure()
@@ -701,14 +946,20 @@ fn run_prost(t: &[&str]) -> String {
         .emit_rerun_if_changed(false)
         .use_arc_self(arc)
         .generate_default_stubs(stubs)
+        .compile_well_known_types(wkt)
+        .proto_path(ppath)
         .build_client(sides != "server")
         .build_server(sides != "client");
+    if let Some(r) = ext_rust(ext) {
+        b = b.extern_path(".ext.types", r);
+    }
     if !emit {
         b = b.disable_package_emission();
     }
-    if let Err(e) = b.compile_fds(FileDescriptorSet { file: vec![file] }) {
+    if let Err(e) = b.compile_fds(prost_fds(&pkg, t[9], &ms)) {
         return format!("generator-error {}", tok(&e.to_string()));
     }
+    // (one file per package; only the one of the service's own package holds service modules)
     match syn::parse_file(&read_all_rs(&dir)) {
         Ok(f) => render(&extract(&f), false),
         Err(e) => format!("emitted-code-does-not-parse {}", tok(&e.to_string())),
@@ -720,7 +971,7 @@ fn run_prost(t: &[&str]) -> String {
 
 fn pool_block(i: usize) -> String {
     let (pkg, name, ms) = POOL[i];
-    let mut s = format!("{} {} {} {}", i, dash(pkg), name, ms.len());
+    let mut s = format!("{} {} {} {} {}", i, fl(pool::POOL_EMIT[i]), dash(pkg), name, ms.len());
     for (r, k) in ms.iter() {
         s.push_str(&format!(" {} {}", r, k));
     }
@@ -796,6 +1047,66 @@ fn run_e2e(t: &[&str]) -> String {
         Ok(v) => format!("{hit} ok {}", v.iter().map(|x| x.to_string()).collect::<Vec<_>>().join(" ")),
         Err(st) => format!("{hit} err {}", st.code() as i32),
     }
+}
+
+/// `srv <pool block> <path-hex>`: one request straight into the compiled generated server.
+fn srv_line(i: usize, path: &[u8]) -> String {
+    format!("srv {} {}", pool_block(i), hex(path))
+}
+
+fn valid_target(path: &[u8]) -> Option<http::Uri> {
+    let uri = http::Uri::try_from(path).ok()?;
+    if uri.path().as_bytes() != path {
+        return None;
+    }
+    Some(uri)
+}
+
+fn run_srv(t: &[&str]) -> String {
+    let Some((i, used)) = take_pool_block(&t[1..]) else { return "bad-case".into() };
+    if t.len() != 1 + used + 1 {
+        return "bad-case".into();
+    }
+    let Some(path) = unhex(t[1 + used]) else { return "bad-case".into() };
+    let Some(uri) = valid_target(&path) else { return "bad-case".into() };
+    let h = Handler::default();
+    let body = tonic::body::Body::new(http_body_util::Full::new(bytes::Bytes::from_static(&[0, 0, 0, 0, 0])));
+    let req = http::Request::builder()
+        .method("POST")
+        .uri(uri)
+        .version(http::Version::HTTP_2)
+        .header("content-type", "application/grpc")
+        .header("te", "trailers")
+        .body(body)
+        .unwrap();
+    let rt = tokio::runtime::Builder::new_current_thread().enable_all().build().unwrap();
+    let h2 = h.clone();
+    let (parts, trailers) = rt.block_on(async move {
+        use http_body_util::BodyExt;
+        let res = pool::direct_call(i, h2, req).await;
+        let (parts, body) = res.into_parts();
+        let trailers = body.collect().await.ok().and_then(|c| c.trailers().cloned());
+        (parts, trailers)
+    });
+    let status = parts
+        .headers
+        .get("grpc-status")
+        .or_else(|| trailers.as_ref().and_then(|t| t.get("grpc-status")))
+        .and_then(|v| v.to_str().ok())
+        .map(|s| s.to_string())
+        .unwrap_or_else(|| "none".into());
+    let hits: Vec<(usize, usize)> = h.events().iter().filter_map(|e| if let Ev::Hit(i, j, _) = e { Some((*i, *j)) } else { None }).collect();
+    let hit = match hits.as_slice() {
+        [] => "hit - -".to_string(),
+        [(i, j)] => format!("hit {} {}", crate::c10::full_name(*i), POOL[*i].2[*j].0),
+        _ => "hit multiple multiple".to_string(),
+    };
+    let ct = match parts.headers.get("content-type").map(|v| v.to_str()) {
+        None => "none".to_string(),
+        Some(Ok(s)) if !s.is_empty() && !s.contains(' ') => s.to_string(),
+        Some(_) => "unprintable".to_string(),
+    };
+    format!("{hit} status {status} http {} ct {ct}", parts.status.as_u16())
 }
 
 // ---------------------------------------------------------------------------------------------
@@ -973,8 +1284,18 @@ const METHODS: [(&str, &str); 16] = [
     ("server_reflection_info", "ServerReflectionInfo"),
     ("unary_call", "unaryCall"),
 ];
-const TYPES: [&str; 6] = ["super::Req", "super::Resp", "crate::pb::HelloRequest", "crate::pb::HelloReply", "Msg1", "super::super::other::Empty2"];
-const MSGS: [&str; 6] = ["Req", "Resp", "HelloRequest", "HelloReply", "Msg1", "Empty2"];
+const TYPES: [&str; 10] = [
+    "F:super::Req", "F:super::Resp", "F:crate::pb::HelloRequest", "F:crate::pb::HelloReply", "F:Msg1", "F:super::super::other::Empty2",
+    "E:Req", "E:pb::Reply", "E:Empty", "E:r#type::Inner",
+];
+const MANUAL_TYPES: [&str; 6] = ["super::Req", "super::Resp", "crate::pb::HelloRequest", "crate::pb::HelloReply", "Msg1", "super::super::other::Empty2"];
+/// message kinds of the prost path (see `kind_proto`)
+const KINDS: [&str; 18] = [
+    "L:Req", "L:Resp", "L:HelloRequest", "L:Self", "L:Type", "L:lower_case", "N:Outer.Inner", "N:Type.Inner", "N:HelloRequest.Nested",
+    "O:Shared", "O:Self", "W:Empty", "W:Timestamp", "W:StringValue", "W:Any", "W:BoolValue", "X:Thing", "X:Outer.Deep",
+];
+const PPATHS: [&str; 4] = ["super", "crate::pb", "super::super", "crate"];
+const EXTS: [&str; 3] = ["-", "abs", "crate"];
 const SIDES: [&str; 3] = ["both", "client", "server"];
 
 fn pick_methods(rng: &mut Rng, n: usize) -> Vec<usize> {
@@ -987,12 +1308,22 @@ fn pick_methods(rng: &mut Rng, n: usize) -> Vec<usize> {
     idx
 }
 
-fn gen_line(rng: &mut Rng, emit: bool, arc: bool, stubs: bool, transport: bool, sides: &str, pkg: &str, name: &str, ident: &str, ms: &[(usize, bool, bool)]) -> String {
-    let mut s = format!("gen {} {} {} {} {} {} {} {} {}", fl(emit), fl(arc), fl(stubs), fl(transport), sides, dash(pkg), name, ident, ms.len());
+struct GenOpts<'a> {
+    emit: bool,
+    arc: bool,
+    stubs: bool,
+    transport: bool,
+    sides: &'a str,
+    wkt: bool,
+    ppath: &'a str,
+}
+
+fn gen_line(rng: &mut Rng, o: &GenOpts, pkg: &str, name: &str, ident: &str, ms: &[(usize, bool, bool)]) -> String {
+    let mut s = format!("gen {} {} {} {} {} {} {} {} {} {} {}", fl(o.emit), fl(o.arc), fl(o.stubs), fl(o.transport), o.sides, fl(o.wkt), o.ppath, dash(pkg), name, ident, ms.len());
     for &(k, cs, ss) in ms {
         let (f, id) = METHODS[k];
-        let (i, o) = (*rng.pick(&TYPES), *rng.pick(&TYPES));
-        s.push_str(&format!(" {} {} {} {} {} {}", f, id, fl(cs), fl(ss), i, o));
+        let (i, out) = (*rng.pick(&TYPES), *rng.pick(&TYPES));
+        s.push_str(&format!(" {} {} {} {} {} {}", f, id, fl(cs), fl(ss), i, out));
     }
     s
 }
@@ -1001,20 +1332,42 @@ fn manual_line(rng: &mut Rng, transport: bool, sides: &str, pkg: &str, name: &st
     let mut s = format!("manual {} {} {} {} {}", fl(transport), sides, dash(pkg), name, ms.len());
     for &(k, cs, ss) in ms {
         let (f, id) = METHODS[k];
-        let (i, o) = (*rng.pick(&TYPES), *rng.pick(&TYPES));
+        let (i, o) = (*rng.pick(&MANUAL_TYPES), *rng.pick(&MANUAL_TYPES));
         s.push_str(&format!(" {} {} {} {} {} {}", f, id, fl(cs), fl(ss), i, o));
     }
     s
 }
 
-fn prost_line(rng: &mut Rng, emit: bool, arc: bool, stubs: bool, sides: &str, pkg: &str, svc: &str, ms: &[(usize, bool, bool)]) -> String {
-    let mut s = format!("prost {} {} {} {} {} {} {}", fl(emit), fl(arc), fl(stubs), sides, dash(pkg), svc, ms.len());
-    for &(k, cs, ss) in ms {
-        let (_, id) = METHODS[k];
-        let (i, o) = (*rng.pick(&MSGS), *rng.pick(&MSGS));
-        s.push_str(&format!(" {} {} {} {} {}", id, fl(cs), fl(ss), i, o));
+struct ProstOpts<'a> {
+    emit: bool,
+    arc: bool,
+    stubs: bool,
+    sides: &'a str,
+    wkt: bool,
+    ppath: &'a str,
+    ext: &'a str,
+}
+
+/// `kinds`: per method (in, out).  prost-build's own view of the types is recorded here and
+/// carried in the line.
+fn prost_line(o: &ProstOpts, pkg: &str, svc: &str, ms: &[(usize, bool, bool)], kinds: &[(&str, &str)]) -> String {
+    let pms: Vec<PM> = ms.iter().zip(kinds).map(|(&(k, cs, ss), (i, out))| (METHODS[k].1.to_string(), cs, ss, i.to_string(), out.to_string())).collect();
+    let view = prost_view(pkg, svc, &pms, o.wkt, o.ext).expect("prost-build refused a harness-made descriptor set");
+    assert_eq!(view.len(), pms.len());
+    let mut s = format!("prost {} {} {} {} {} {} {} {} {} {}", fl(o.emit), fl(o.arc), fl(o.stubs), o.sides, fl(o.wkt), o.ppath, o.ext, dash(pkg), svc, pms.len());
+    for (m, v) in pms.iter().zip(&view) {
+        s.push_str(&format!(
+            " {} {} {} {} {} {} {} {} {} {} {}",
+            m.0, fl(m.1), fl(m.2),
+            m.3, tok(&v[0]), tok(&v[1].replace(' ', "")), fl(kind_here(&m.3, o.wkt, o.ext)),
+            m.4, tok(&v[2]), tok(&v[3].replace(' ', "")), fl(kind_here(&m.4, o.wkt, o.ext))
+        ));
     }
     s
+}
+
+fn pick_kinds(rng: &mut Rng, n: usize) -> Vec<(&'static str, &'static str)> {
+    (0..n).map(|_| (*rng.pick(&KINDS), *rng.pick(&KINDS))).collect()
 }
 
 pub fn generate(tier: &str, rng: &mut Rng) -> Vec<String> {
@@ -1023,14 +1376,24 @@ pub fn generate(tier: &str, rng: &mut Rng) -> Vec<String> {
     // ---- the clause without a quantifier
     out.push("regen".to_string());
 
+    let dflt = ProstOpts { emit: true, arc: false, stubs: false, sides: "both", wkt: false, ppath: "super", ext: "-" };
+    let gd = GenOpts { emit: true, arc: false, stubs: false, transport: true, sides: "both", wkt: false, ppath: "super" };
     // ---- corpus: the descriptors of the committed generated crates, and the classic shapes
-    out.push("prost 1 0 0 both grpc.health.v1 Health 2 Check 0 0 HealthCheckRequest HealthCheckResponse Watch 0 1 HealthCheckRequest HealthCheckResponse".into());
-    out.push("prost 1 0 0 both grpc.reflection.v1 ServerReflection 1 ServerReflectionInfo 1 1 ServerReflectionRequest ServerReflectionResponse".into());
-    out.push("prost 1 0 0 both - Greeter 1 SayHello 0 0 HelloRequest HelloReply".into());
-    out.push("prost 0 0 0 both helloworld Greeter 1 SayHello 0 0 HelloRequest HelloReply".into());
-    out.push("gen 1 0 0 1 both helloworld Greeter Greeter 1 say_hello SayHello 0 0 super::HelloRequest super::HelloReply".into());
-    out.push("gen 0 0 0 1 both helloworld Greeter Greeter 1 say_hello SayHello 0 0 super::HelloRequest super::HelloReply".into());
-    out.push("gen 1 0 0 1 both - Greeter Greeter 0".into());
+    out.push(prost_line(&dflt, "grpc.health.v1", "Health", &[(3, false, false), (4, false, true)], &[("L:HealthCheckRequest", "L:HealthCheckResponse"), ("L:HealthCheckRequest", "L:HealthCheckResponse")]));
+    out.push(prost_line(&dflt, "grpc.reflection.v1", "ServerReflection", &[(14, true, true)], &[("L:ServerReflectionRequest", "L:ServerReflectionResponse")]));
+    out.push(prost_line(&dflt, "", "Greeter", &[(0, false, false)], &[("L:HelloRequest", "L:HelloReply")]));
+    out.push(prost_line(&ProstOpts { emit: false, ..dflt }, "helloworld", "Greeter", &[(0, false, false)], &[("L:HelloRequest", "L:HelloReply")]));
+    // well-known types, compiled or not (tests/wellknown, tests/wellknown-compiled), on each side alone too
+    for wkt in [false, true] {
+        for sides in SIDES {
+            out.push(prost_line(&ProstOpts { wkt, sides, ..dflt }, "wellknown", "Admin", &[(0, false, false), (4, false, true), (1, true, true)],
+                &[("W:Empty", "W:Empty"), ("W:Timestamp", "W:StringValue"), ("W:Any", "L:Req")]));
+        }
+    }
+    out.push("gen 1 0 0 1 both 0 super helloworld Greeter Greeter 1 say_hello SayHello 0 0 F:super::HelloRequest F:super::HelloReply".into());
+    out.push("gen 0 0 0 1 both 0 super helloworld Greeter Greeter 1 say_hello SayHello 0 0 F:super::HelloRequest F:super::HelloReply".into());
+    out.push("gen 1 0 0 1 both 1 crate::pb helloworld Greeter Greeter 2 say_hello SayHello 0 0 E:HelloRequest E:HelloReply watch Watch 0 1 E:Empty F:super::HelloReply".into());
+    out.push("gen 1 0 0 1 both 0 super - Greeter Greeter 0".into());
     out.push("manual 1 both helloworld Greeter 1 say_hello SayHello 0 0 crate::HelloRequest super::HelloResponse".into());
     out.push("manual 1 both - Greeter 4 m M 0 0 crate::A crate::B mx Mx 0 1 crate::A crate::B check Check 1 0 crate::B crate::A watch Watch 1 1 crate::B crate::B".into());
 
@@ -1040,13 +1403,33 @@ pub fn generate(tier: &str, rng: &mut Rng) -> Vec<String> {
             for sides in SIDES {
                 let ms: Vec<(usize, bool, bool)> = vec![(0, false, false), (4, false, true), (1, true, false), (14, true, true)];
                 let (arc, stubs, transport) = (rng.chance(1, 2), rng.chance(1, 2), rng.chance(1, 2));
+                let (wkt, ppath) = (rng.chance(1, 2), *rng.pick(&PPATHS));
                 // Rust name deliberately differs from the proto identifier
-                out.push(gen_line(rng, emit, arc, stubs, transport, sides, pkg, "RustName", "ProtoName", &ms));
+                out.push(gen_line(rng, &GenOpts { emit, arc, stubs, transport, sides, wkt, ppath }, pkg, "RustName", "ProtoName", &ms));
                 let sn = *rng.pick(&SVC_NAMES);
-                out.push(prost_line(rng, emit, arc, stubs, sides, pkg, sn, &ms));
+                let kinds = pick_kinds(rng, ms.len());
+                out.push(prost_line(&ProstOpts { emit, arc, stubs, sides, wkt, ppath, ext: *rng.pick(&EXTS) }, pkg, sn, &ms, &kinds));
                 if emit {
                     let sn = *rng.pick(&SVC_NAMES);
                     out.push(manual_line(rng, transport, sides, pkg, sn, &ms));
+                }
+            }
+        }
+    }
+    // every message kind × compile_well_known_types × extern_path mode × proto_path × sides
+    // (1-method services: the kind as request and `L:Resp` as response, and the other way round)
+    for (ki, kind) in KINDS.iter().enumerate() {
+        for wkt in [false, true] {
+            for ext in EXTS {
+                for (pi, ppath) in PPATHS.iter().enumerate() {
+                    let sides = SIDES[(ki + pi) % 3];
+                    let pkg = PACKAGES[(ki + pi + wkt as usize) % PACKAGES.len()];
+                    let o = ProstOpts { emit: (ki + pi) % 4 != 0, arc: pi % 2 == 1, stubs: ki % 2 == 1, sides, wkt, ppath, ext };
+                    let kind_i = (ki + pi) % 4;
+                    out.push(prost_line(&o, pkg, "Svc", &[(pi, kind_i & 2 != 0, kind_i & 1 != 0)], &[(kind, "L:Resp")]));
+                    if thorough || pi == 0 {
+                        out.push(prost_line(&ProstOpts { sides: "both", ..o }, pkg, "Svc", &[(pi + 4, kind_i & 1 != 0, kind_i & 2 != 0)], &[("L:Req", kind)]));
+                    }
                 }
             }
         }
@@ -1059,8 +1442,10 @@ pub fn generate(tier: &str, rng: &mut Rng) -> Vec<String> {
                 let (arc, stubs) = (opt & 1 != 0, opt & 2 != 0);
                 let pkg = *rng.pick(&PACKAGES);
                 let name = *rng.pick(&SVC_NAMES);
-                out.push(gen_line(rng, true, arc, stubs, true, "both", pkg, name, name, &[(k, cs, ss)]));
-                out.push(prost_line(rng, true, arc, stubs, "both", pkg, name, &[(k, cs, ss)]));
+                let (wkt, ppath) = (rng.chance(1, 2), *rng.pick(&PPATHS));
+                out.push(gen_line(rng, &GenOpts { arc, stubs, wkt, ppath, ..gd }, pkg, name, name, &[(k, cs, ss)]));
+                let kinds = pick_kinds(rng, 1);
+                out.push(prost_line(&ProstOpts { arc, stubs, wkt, ppath, ext: *rng.pick(&EXTS), ..dflt }, pkg, name, &[(k, cs, ss)], &kinds));
             }
         }
     }
@@ -1079,19 +1464,51 @@ pub fn generate(tier: &str, rng: &mut Rng) -> Vec<String> {
         let name = *rng.pick(&SVC_NAMES);
         let sides = if rng.chance(2, 3) { "both" } else { *rng.pick(&SIDES) };
         let (emit, arc, stubs, transport) = (rng.chance(3, 4), rng.chance(1, 3), rng.chance(1, 3), rng.chance(1, 2));
+        let (wkt, ppath, ext) = (rng.chance(1, 2), *rng.pick(&PPATHS), *rng.pick(&EXTS));
         match rng.below(5) {
             0 | 1 => {
                 let ident = if rng.chance(1, 2) { name } else { *rng.pick(&SVC_NAMES) };
-                out.push(gen_line(rng, emit, arc, stubs, transport, sides, pkg, name, ident, &ms))
+                out.push(gen_line(rng, &GenOpts { emit, arc, stubs, transport, sides, wkt, ppath }, pkg, name, ident, &ms))
             }
             2 => out.push(manual_line(rng, transport, sides, pkg, name, &ms)),
-            _ => out.push(prost_line(rng, emit, arc, stubs, sides, pkg, name, &ms)),
+            _ => {
+                let kinds = pick_kinds(rng, ms.len());
+                out.push(prost_line(&ProstOpts { emit, arc, stubs, sides, wkt, ppath, ext }, pkg, name, &ms, &kinds))
+            }
+        }
+    }
+
+    // ---- the compiled generated servers, driven directly (no router in front): what the
+    // generated `call` matches on and what it answers otherwise is decided by running it.
+    // Every pool server × (every exact path of the whole pool — its own methods, and other
+    // services' prefixes in front of its method names — plus mutations of its own paths).
+    let n = POOL.len();
+    let pool_paths: Vec<Vec<u8>> = (0..n)
+        .flat_map(|i| POOL[i].2.iter().map(move |(m, _)| format!("/{}/{}", crate::c10::full_name(i), m).into_bytes()))
+        .collect();
+    for i in 0..n {
+        for p in &pool_paths {
+            out.push(srv_line(i, p));
+        }
+        // with the package although generated without, and the other way round
+        let (pkg, name, ms) = POOL[i];
+        for (m, _) in ms.iter() {
+            for p in [format!("/{pkg}.{name}/{m}"), format!("/{name}/{m}"), format!("/{m}"), format!("/x/{m}"), format!("/{}/x/{m}", crate::c10::full_name(i))] {
+                if valid_target(p.as_bytes()).is_some() {
+                    out.push(srv_line(i, p.as_bytes()));
+                }
+            }
+            let muts = crate::c10::mutations(rng, &crate::c10::full_name(i), m);
+            for (k, p) in muts.iter().enumerate() {
+                if (thorough || k % 3 == i % 3) && valid_target(p).is_some() {
+                    out.push(srv_line(i, p));
+                }
+            }
         }
     }
 
     // ---- end to end through the compiled pool: every method of every pool service, alone,
     // among all others, and absent
-    let n = POOL.len();
     let all: Vec<usize> = (0..n).collect();
     for i in 0..n {
         for j in 0..POOL[i].2.len() {
@@ -1125,6 +1542,7 @@ pub fn execute(case: &str) -> String {
         "manual" => run_manual(&t),
         "prost" => run_prost(&t),
         "e2e" => run_e2e(&t),
+        "srv" => run_srv(&t),
         "regen" => run_regen(),
         _ => "bad-case".into(),
     }
